@@ -118,6 +118,12 @@ class Fn:
             x, is_none = self.is_none_test(e.test)
             a, b = (e.body, e.orelse) if is_none else (e.orelse, e.body)
             return "(match %s with | none => %s | some %s => %s)" % (x, self.E(a), x, self.E(b))
+        if isinstance(e, ast.IfExp):
+            return "(if %s then %s else %s)" % (self.T(e.test), self.E(e.body), self.E(e.orelse))
+        if isinstance(e, ast.ListComp) and len(e.generators) == 1 and not e.generators[0].ifs and isinstance(e.generators[0].target, ast.Name) \
+                and "list_map" in self.cfg:
+            g = e.generators[0]
+            return self.cfg["list_map"].format(fn="fun %s => %s" % (lean_name(g.target.id), self.E(e.elt)), it=self.E(g.iter))
         if isinstance(e, ast.Constant) and isinstance(e.value, str) and self.cfg.get("strings"):
             return "[" + ", ".join("Char.ofNat %d" % ord(c) for c in e.value) + "]"
         if isinstance(e, ast.List) and not e.elts:
@@ -738,6 +744,17 @@ FUNCS.append(
                      ("A.anonymize(B)", "(← Py.resS (Words.anonymize p.wenv {A} {B}))"),
                      ("anonymize_as_numbers(A, B)", "(← Py.resS (AsNum.anonymize {A} {B}))")]))
 
+FUNCS.append(
+    dict(module="netconan/sensitive_item_removal.py", qual="SensitiveWordAnonymizer.anonymize", name="words_anonymize",
+         sig="(e : WEnv) (t : Words.T) (line : List Char) : Regex.Res (List Char)", add="++",
+         list_map="(← Py.listMapR ({fn}) {it})",
+         expr_rules=[("self.sens_regex.search(line) is not None", "(← Regex.search t.re line).isSome"),
+                     ("_split_line(A)", "Secrets.splitLine e.isSpace {A}"),
+                     ("w.lower() in self.conflicting_words", "t.conflicting.contains (lowerStr e w)"),
+                     ("w if A else B", "(if {A} then Regex.Res.ok w else {B})"),
+                     ("self.sens_regex.sub(self._lookup_anon_word, A)", "Regex.sub t.re (fun mt => Words.replacement t.salt mt.text) {A}"),
+                     ("' '.join(A)", "Secrets.joinSp {A}")]))
+
 GROUPS = {
     "SrcIp": dict(imports=["Netconan.Model.Py", "Netconan.Model.Mask", "Netconan.Model.IpText", "Netconan.Model.PyRegex"],
                   serves=["C01", "C02", "C03", "C04", "C05", "C06", "C17", "C12", "C13", "C14", "C15"],
@@ -749,6 +766,7 @@ GROUPS = {
     "SrcLines": dict(imports=["Netconan.Model.Py", "Netconan.Model.Lines"], serves=["C12", "C13", "C14", "C15"], funcs=["line_step"]),
     "SrcJun": dict(imports=["Netconan.Model.Py", "Netconan.Model.Juniper"], serves=["C18"], funcs=["gap_encode", "gap", "fixedc"]),
     "SrcFull": dict(imports=["Netconan.Model.PyFull"], serves=["C12", "C13", "C14", "C15"], funcs=["line_step_full"]),
+    "SrcWords": dict(imports=["Netconan.Model.PyWords"], serves=["C10"], funcs=["words_anonymize"]),
     "SrcCli": dict(imports=["Netconan.Model.Py", "Netconan.Model.Cli"], serves=["C19"], funcs=["main"]),
 }
 
